@@ -18,6 +18,8 @@ func main() {
 	switch os.Args[1] {
 	case "explore":
 		explore(os.Args[2:])
+	case "run":
+		runCmd(os.Args[2:])
 	default:
 		fmt.Println("unknown command")
 		os.Exit(2)
